@@ -214,7 +214,7 @@ Section Run.
       let after := apply_op f o in
       op_names_ok o = true /\ op_ok f o = true /\
       (forall p, w_walk oc (abspath root p) = w_sub oc p) /\ (forall p, wf_tree (w_sub oc p) = true) /\
-      (forall p, w_isdir oc (abspath root p) = fs_isdir after p) /\
+      (forall p, In p (op_paths o) -> w_isdir oc (abspath root p) = fs_isdir after p) /\
       concat reads = map render_native (win_kernel o) /\
       covers (w_sub oc) after o /\
       win_steps_ok sr after r
@@ -269,4 +269,86 @@ Proof.
   intros root ops steps f last Hr Hs W H subs. split.
   - rewrite (win_run_contracts true root Hr Hs ops steps f last H). now rewrite win_history_r_true.
   - apply win_replay_history; [now apply wf_closed | now apply (steps_history_ok root ops steps f)].
+Qed.
+
+(* ---------------------------------------------------------------- the whole notification stream, cut anywhere *)
+Section Stream.
+  Variable isdir : bytes -> bool.       (* os.path.isdir / os.walk whenever the emitter asks *)
+  Variable walk : bytes -> tree.
+  Variable sub : path -> tree.
+  Variable recursive : bool.
+  Variable root : bytes.
+  Hypothesis Hroot : root <> [].
+  Hypothesis Hsep : last_is_sep root = false.
+  Hypothesis Hwalk : forall p, walk (abspath root p) = sub p.
+  Hypothesis Hwf : forall p, wf_tree (sub p) = true.
+
+  (* what ReadDirectoryChangesW delivers for a history, as one stream *)
+  Definition win_stream (ops : list op) : list native :=
+    flat_map (fun o => map render_native (win_kernel o)) ops.
+
+  Fixpoint win_contracts (f : fs) (ops : list op) : list aev :=
+    match ops with
+    | [] => []
+    | o :: r => win_contract sub recursive (apply_op f o) o ++ win_contracts (apply_op f o) r
+    end.
+
+  (* an executable history; whenever the emitter gets to an operation's notifications - right away or
+     after later operations - os.path.isdir answers, on the paths that operation names, as right after
+     the operation, and os.walk lists below its target what was there right after it *)
+  Fixpoint win_stream_ok (f : fs) (ops : list op) : Prop :=
+    match ops with
+    | [] => True
+    | o :: r =>
+      let after := apply_op f o in
+      op_names_ok o = true /\ op_ok f o = true /\
+      (forall p, In p (op_paths o) -> isdir (abspath root p) = fs_isdir after p) /\
+      covers sub after o /\
+      win_stream_ok after r
+    end.
+
+  Theorem win_stream_contracts : forall ops f last, win_stream_ok f ops ->
+    queue_events isdir walk recursive root last (win_stream ops)
+    = (map (render root) (win_contracts f ops), fold_left (state_after root) ops last, false).
+  Proof.
+    induction ops as [|o r IH]; intros f last H; [reflexivity|].
+    destruct H as (Hn & Ho & Hi & _ & Hr). cbn [win_stream flat_map win_contracts fold_left].
+    fold (win_stream r). unfold queue_events. rewrite batch_go_app.
+    pose proof (win_contract_ok isdir walk sub recursive root Hroot Hsep Hwalk Hwf f o last Hn Ho Hi) as E.
+    unfold queue_events in E. rewrite E.
+    pose proof (IH (apply_op f o) (state_after root last o) Hr) as E2. unfold queue_events in E2. rewrite E2.
+    now rewrite map_app.
+  Qed.
+
+  Theorem win_stream_cut : forall ops f last reads, win_stream_ok f ops -> concat reads = win_stream ops ->
+    queue_events_seq isdir walk recursive root last reads
+    = (map (render root) (win_contracts f ops), fold_left (state_after root) ops last, false).
+  Proof. intros ops f last reads H Hc. rewrite queue_events_cuts, Hc. now apply win_stream_contracts. Qed.
+End Stream.
+
+Theorem win_stream_replay : forall sub isdir root ops f, closed_fs f -> win_stream_ok isdir sub root f ops ->
+  Permutation (replay (view_of f) (win_contracts sub true f ops)) (view_of (fold_left apply_op ops f)).
+Proof.
+  intros sub isdir root. induction ops as [|o r IH]; intros f C H; [apply Permutation_refl|].
+  destruct H as (Hn & Ho & _ & Hc & Hr). cbn [win_contracts fold_left]. rewrite replay_app.
+  eapply Permutation_trans.
+  - apply replay_perm. apply win_replay_cov; eassumption.
+  - apply IH; [now apply closed_apply | exact Hr].
+Qed.
+
+(* C20_win_replay_full *)
+Theorem win_replay_stream_full :
+  forall (isdir : bytes -> bool) (walk : bytes -> tree) (sub : path -> tree) (root : bytes)
+         (ops : list op) (f : fs) (last : bytes) (reads : list (list native)),
+  root <> [] -> last_is_sep root = false ->
+  (forall p, walk (abspath root p) = sub p) -> (forall p, wf_tree (sub p) = true) ->
+  wf_fs f -> win_stream_ok isdir sub root f ops ->
+  concat reads = win_stream ops ->
+  let es := win_contracts sub true f ops in
+  fst (fst (queue_events_seq isdir walk true root last reads)) = map (render root) es /\
+  Permutation (replay (view_of f) es) (view_of (fold_left apply_op ops f)).
+Proof.
+  intros isdir walk sub root ops f last reads Hr Hs Hw Hwf W H Hc es. split.
+  - rewrite (win_stream_cut isdir walk sub true root Hr Hs Hw Hwf ops f last reads H Hc). reflexivity.
+  - eapply win_stream_replay; [now apply wf_closed | exact H].
 Qed.
